@@ -97,7 +97,8 @@ func runC03(c *Ctx) {
 	}
 
 	R.Rule("R-guard-greet", "E3 edge-feasibility", "Backend.NewSession only after a parsed greeting of the server's flavour and only when no session exists", 4)
-	for _, site := range c.Sites(lNewSession) {
+	for _, es := range c.effSites(lNewSession, "invoke:Backend.NewSession#1") {
+		site := es.site
 		c.obUnreach("NewSession", site, aSessSet)
 		if funcName(site.Parent()) == "(*Conn).handleGreet" {
 			c.obUnreach("NewSession", site, `parseHelloArgument(param2)#1 != nil`)
@@ -165,7 +166,7 @@ func runC03(c *Ctx) {
 	if f := c.A.Func("(*Conn).handleStartTLS"); f != nil {
 		c.obFollow("TLS upgrade then reset", f, c.direct("st:Conn.conn"), []string{lReset}, nil, nil)
 		c.obFollow("TLS upgrade then helo cleared", f, c.direct("st:Conn.conn"), []string{`st:Conn.helo=""`}, nil, nil)
-		c.obFollow("TLS upgrade then Logout", f, c.direct("st:Conn.conn"), []string{lLogout}, c.F.SkipUnder(`Conn.session != nil`), nil)
+		c.obFollowH("TLS upgrade then Logout", f, c.direct("st:Conn.conn"), []string{lLogout}, `Conn.session != nil`)
 	}
 
 	R.Rule("R-refusal-no-callback", "E2 never-after", "after a refusal reply (constant code >= 400) no callback or state-advancing store follows before the handler returns or reads the next line", 40)
@@ -203,11 +204,12 @@ func runC03(c *Ctx) {
 	}
 
 	R.Rule("R-helo-before-newsession", "E2+E4", "the greeting name is stored before NewSession and cleared when NewSession fails; Hostname/TLSConnectionState read the live fields", 4)
-	for _, site := range c.Sites(lNewSession) {
+	for _, es := range c.effSites(lNewSession, "invoke:Backend.NewSession#1") {
+		site := es.site
 		seen := s.SeenBefore(site)
 		R.Ob(c.siteKey(site, "helo stored before NewSession"), c.P.InstrPos(site), seen["st:Conn.helo"], "no store to Conn.helo on every path before the NewSession call")
 		f := site.Parent()
-		c.obFollow("failed NewSession clears helo", f, func(in ssa.Instruction) bool { return in == site }, []string{`st:Conn.helo=""`}, c.F.SkipUnder(`invoke:Backend.NewSession#1 != nil`), nil)
+		c.obFollow("failed NewSession clears helo", f, func(in ssa.Instruction) bool { return in == site }, []string{`st:Conn.helo=""`}, c.F.SkipUnder(es.errDesc+` != nil`), nil)
 	}
 	if f := c.A.Func("(*Conn).handleGreet"); f != nil {
 		for _, st := range s.Find(f, "st:Conn.helo") {
